@@ -56,13 +56,73 @@ def alias_values(fnode, name):
     return out
 
 
+def _helper_lists(f, v):
+    """child list attributes (of the receiver) that the private helper call v can return, or None when v is no such call"""
+    from ..symtext import _is_private_helper_call
+    if not (isinstance(v, ast.Call) and isinstance(v.func, ast.Attribute)) or f is None:
+        return None
+    try:
+        h = _is_private_helper_call(f, v)
+    except Exception:
+        h = None
+    if h is None or not h.params or not h.has_self:
+        return None
+    conv = []
+    for r in [r.value for r in walk_no_nested(h.node) if isinstance(r, ast.Return)]:
+        if r is None or (isinstance(r, ast.Constant) and r.value is None):
+            continue
+        if isinstance(r, ast.Attribute) and isinstance(r.value, ast.Name) and r.value.id == h.params[0] and (r.attr in CHILD_FIELDS or r.attr in CHILD_GETTERS):
+            conv.append(ast.Attribute(value=v.func.value, attr=r.attr, ctx=ast.Load()))
+        else:
+            return None
+    return conv or None
+
+
+def _list_values(f, name):
+    """alias_values with one refinement: a value that is the call of a private helper which returns child lists of its own object (or
+    None) - `children = self._child_list_for(obj)` - counts as those child lists of the receiver"""
+    from ..symtext import _is_private_helper_call
+    out = []
+    for v in alias_values(f.node, name):
+        h = None
+        if isinstance(v, ast.Call):
+            try:
+                h = _is_private_helper_call(f, v)
+            except Exception:
+                h = None
+        if h is None or not h.params or not h.has_self or not isinstance(v.func, ast.Attribute):
+            out.append(v)
+            continue
+        rets = [r.value for r in walk_no_nested(h.node) if isinstance(r, ast.Return)]
+        conv = []
+        for r in rets:
+            if r is None or (isinstance(r, ast.Constant) and r.value is None):
+                continue
+            if isinstance(r, ast.Attribute) and isinstance(r.value, ast.Name) and r.value.id == h.params[0] and (r.attr in CHILD_FIELDS or r.attr in CHILD_GETTERS):
+                conv.append(ast.Attribute(value=v.func.value, attr=r.attr, ctx=ast.Load()))
+            else:
+                conv = None
+                break
+        if conv:
+            out.extend(conv)
+        else:
+            out.append(v)
+    return out
+
+
 def owner_of_list(e, f):
     """text of the object owning the child list expression e ('OWNER(<list>)' when unknown).
     A local that is bound only to child lists of one owner (children = self._sections / self._props) is such a list."""
     if isinstance(e, ast.Attribute) and (e.attr in CHILD_FIELDS or e.attr in CHILD_GETTERS):
         return norm_text(e.value), CHILD_GETTERS.get(e.attr, e.attr)
+    hl = _helper_lists(f, e)
+    if hl:
+        owners = set(norm_text(v.value) for v in hl)
+        lists = set(CHILD_GETTERS.get(v.attr, v.attr) for v in hl)
+        if len(owners) == 1:
+            return owners.pop(), (lists.pop() if len(lists) == 1 else "?")
     if isinstance(e, ast.Name) and f is not None and e.id not in f.params:
-        vals = alias_values(f.node, e.id)
+        vals = _list_values(f, e.id)
         if vals and all(isinstance(v, ast.Attribute) and (v.attr in CHILD_FIELDS or v.attr in CHILD_GETTERS) for v in vals):
             owners = set(norm_text(v.value) for v in vals)
             lists = set(CHILD_GETTERS.get(v.attr, v.attr) for v in vals)
@@ -73,7 +133,7 @@ def owner_of_list(e, f):
 
 def _alias_is_child_list(f, e):
     if isinstance(e, ast.Name) and f is not None and e.id not in f.params:
-        vals = alias_values(f.node, e.id)
+        vals = _list_values(f, e.id)
         return bool(vals) and all(isinstance(v, ast.Attribute) and (v.attr in CHILD_FIELDS or v.attr in CHILD_GETTERS) for v in vals)
     return False
 
